@@ -267,7 +267,14 @@ func (pkg *pkg) Generate() (bool, error) {
 	return generated, nil
 }
 
-func (pg *program) Generate() error {
+func (pg *program) Generate() (err error) {
+	defer func() {
+		if r := recover(); r != nil {
+			// do not leave the old generated files under their temporary names.
+			restoreDerived(pg.hidden)
+			panic(r)
+		}
+	}()
 	pkgInfos := pg.program.InitialPackages()
 
 	// sort.Slice(pkgInfos, func(i, j int) bool {
